@@ -416,7 +416,8 @@ func (e *Exec) checkAssert(st *State, c *Term, msg string) {
 		}
 	} else {
 		e.sol.Stats.Winners["z3-inc"]++
-		if e.cfg.CrossCheckEvery > 0 && e.res.Verdicts%e.cfg.CrossCheckEvery == 0 {
+		if e.cfg.CrossCheckEvery > 0 && e.res.Verdicts%e.cfg.CrossCheckEvery == 0 && e.crossDone < 12 {
+			e.crossDone++
 			q := DumpQuery(st.pc, neg, "", nil)
 			pr, who, err := Portfolio(q, e.cfg.VerdictTimeoutS, true)
 			if err != nil {
